@@ -109,6 +109,8 @@ fn closed_form_lm(p: &BTreeMap<String, String>, red: (f64, f64), lm: bool) -> Ex
         "hp4" => dsum * 0.75,
         // ambient heat of a heat pump tagged as low SCOP is excluded (documented tag)
         "hp25_excluded" | "hp25_excluded2" => 0.0,
+        // two heat pumps of which only the second (SCOP 2) carries the exclusion tag: the first one's ambient heat counts
+        "hp3_60+hp2_40_excluded" => 0.4 * dsum,
         "solar25+gas" => 0.25 * dsum,
         "solar50+gas" => 0.5 * dsum,
         "solar75+gas" => 0.75 * dsum,
@@ -134,6 +136,7 @@ fn closed_form_lm(p: &BTreeMap<String, String>, red: (f64, f64), lm: bool) -> Ex
         "joule" => d.clone(),
         "hp25" | "hp25_excluded" | "hp25_excluded2" => d.iter().map(|x| x / 2.5).collect(),
         "hp4" => d.iter().map(|x| x / 4.0).collect(),
+        "hp3_60+hp2_40_excluded" => d.iter().map(|x| x * 0.4).collect(),
         "red2_50+hp4_50" => d.iter().map(|x| x / 8.0).collect(),
         _ => vec![0.0; n],
     };
@@ -382,6 +385,10 @@ fn slots(d: &[f64], demand_kind: &'static str, rich: bool) -> Vec<Vec<Letter>> {
         m("hp4", vec![u(Some(1), "ACS", "ELECTRICIDAD", &cv(&sc(0.25))), u(Some(1), "ACS", "EAMBIENTE", &cv(&sc(0.75)))]),
         m("hp25_excluded", vec![u(Some(1), "ACS", "ELECTRICIDAD", &cv(&sc(0.4))), com(u(Some(1), "ACS", "EAMBIENTE", &cv(&sc(0.6))), "BdC CTEEPBD_EXCLUYE_SCOP_ACS")]),
         m("hp25_excluded2", vec![u(Some(1), "ACS", "ELECTRICIDAD", &cv(&sc(0.4))), com(u(Some(1), "ACS", "EAMBIENTE", &cv(&sc(0.6))), "BdC #1 (SCOP 2.0) CTEEPBD_EXCLUYE_SCOP_ACS")]),
+        m(
+            "hp3_60+hp2_40_excluded",
+            vec![u(Some(1), "ACS", "ELECTRICIDAD", &cv(&sc(0.2))), u(Some(1), "ACS", "EAMBIENTE", &cv(&sc(0.4))), u(Some(2), "ACS", "ELECTRICIDAD", &cv(&sc(0.2))), com(u(Some(2), "ACS", "EAMBIENTE", &cv(&sc(0.2))), "BdC 2 CTEEPBD_EXCLUYE_SCOP_ACS")],
+        ),
         m("solar25+gas", vec![u(Some(1), "ACS", "TERMOSOLAR", &cv(&sc(0.25))), u(Some(2), "ACS", "GASNATURAL", &cv(&sc(0.75)))]),
         m("solar50+gas", vec![u(Some(1), "ACS", "TERMOSOLAR", &cv(&sc(0.5))), u(Some(2), "ACS", "GASNATURAL", &cv(&sc(0.5)))]),
         m("solar75+gas", vec![u(Some(1), "ACS", "TERMOSOLAR", &cv(&sc(0.75))), u(Some(2), "ACS", "GASNATURAL", &cv(&sc(0.25)))]),
